@@ -33,6 +33,7 @@ class C03:
         cov["corpus_cases"] = len(corpus)
         cov["exhaustive"] = False
         pc.explore_tb(ctx, "C03", ["proxytb-C03"], cov, failures)
+        pc.explore_sp(ctx, "C03", cov, failures)
         return {"coverage": cov, "failures": failures}
 
     def opts(self, rng, i):
